@@ -653,6 +653,7 @@ func (w *RW) judge(i int, msg sdk.Msg, res chain.TxResult, pre, post *rwState, d
 				// the free name Init creates
 			case in.Kind == "Init" && p.live(h) && p.Owner != signer:
 				w.fail("C08", "init-overwrote-live-name", "h=%d Init by %s replaced live name %s: %v -> %v", h, w.name(signer), k, p, q)
+				w.fail("C16", "live-name-registered-by-non-owner/init", "h=%d Init by %s handed out the live name %s: %v -> %v", h, w.name(signer), k, p, q)
 			case p.live(h):
 				w.fail("C08", "message-changed-unrelated-live-name", "h=%d %s by %s changed %s (not named by the message): %v -> %v", h, rnsDescribe(msg), w.name(signer), k, p, q)
 			default:
